@@ -43,13 +43,13 @@ type c04Spec struct {
 	Calls           []c04Call `json:"calls"`
 	EndAt           int       `json:"end_ms"`
 	NoStandaloneSSE bool      `json:"no_standalone_sse,omitempty"`
-	Version         string    `json:"version,omitempty"`      // sdk mode: requested protocol version ("" = the client's default)
-	Propagate       bool      `json:"propagate,omitempty"`    // stateless HTTP: StreamableHTTPOptions.PropagateRequestCancellation
-	BlockAt         int       `json:"block_at_ms,omitempty"`  // sdk mode: a client notification sent at this instant whose server handler blocks ...
-	BlockMs         int       `json:"block_ms,omitempty"`     // ... for this long (0: none): cancellation notices must not queue behind it
+	Version         string    `json:"version,omitempty"`         // sdk mode: requested protocol version ("" = the client's default)
+	Propagate       bool      `json:"propagate,omitempty"`       // stateless HTTP: StreamableHTTPOptions.PropagateRequestCancellation
+	BlockAt         int       `json:"block_at_ms,omitempty"`     // sdk mode: a client notification sent at this instant whose server handler blocks ...
+	BlockMs         int       `json:"block_ms,omitempty"`        // ... for this long (0: none): cancellation notices must not queue behind it
 	BodyLatencyMs   int       `json:"body_latency_ms,omitempty"` // http-json: the JSON body of every tools/call response is this long in transit after its headers (a cancel or deadline can fall into that window)
 	NestAtOnce      bool      `json:"nest_at_once,omitempty"`    // s2c calls: the tool handler returns the moment its cancelled nested call has returned (the cancellation notice is sent asynchronously and must still reach the client)
-	DrainCancel     int       `json:"drain_cancel,omitempty"` // sdk mode, persistent transports: at the end this many parked calls are cancelled while the callee is already draining under a graceful Close
+	DrainCancel     int       `json:"drain_cancel,omitempty"`    // sdk mode, persistent transports: at the end this many parked calls are cancelled while the callee is already draining under a graceful Close
 }
 
 func genC04(r *vh.Rand) c04Spec {
